@@ -1030,6 +1030,16 @@ func (c *evalCtx) callRecDef(rd *RecDef, n *ast.CallExpr) Value {
 		r := c.eval(rd.Body)
 		c.recDepth--
 		c.names, c.oldEnv = savedNames, savedOld
+		// a tuple-valued result is presented flat, exactly as the compiled definition returns it
+		if _, w := kindWidth(rd.ResKind); w > 2 {
+			if fl := c.flat(r); len(fl) == w {
+				el := make([]Value, len(fl))
+				for q := range fl {
+					el[q] = VInt{fl[q]}
+				}
+				r = VSpecTuple{el}
+			}
+		}
 		for _, p := range rd.Params {
 			if had[p] {
 				c.env[p] = saved[p]
